@@ -28,8 +28,9 @@ import (
 
 // Ctx is the per-execution context handed to a scenario body.
 type Ctx struct {
-	Dir   string // fresh scratch directory of this execution (removed afterwards)
-	Data  any    // scenario-private per-execution data (e.g. captured crash images)
+	mu    sync.Mutex // Fail/Observe/Count may be called from free-running goroutines (race pass)
+	Dir   string     // fresh scratch directory of this execution (removed afterwards)
+	Data  any        // scenario-private per-execution data (e.g. captured crash images)
 	class string
 	fail  string
 	obs   []string
@@ -38,19 +39,33 @@ type Ctx struct {
 
 // Fail records the first failure of this execution.
 func (c *Ctx) Fail(class, format string, a ...any) {
+	c.mu.Lock()
+	defer c.mu.Unlock()
 	if c.fail == "" {
 		c.class = class
 		c.fail = fmt.Sprintf(format, a...)
 	}
 }
 
-func (c *Ctx) Failed() bool { return c.fail != "" }
+func (c *Ctx) Failed() bool {
+	c.mu.Lock()
+	defer c.mu.Unlock()
+	return c.fail != ""
+}
 
 // Observe appends to the observation vector of this execution (vacuity measure).
-func (c *Ctx) Observe(s string) { c.obs = append(c.obs, s) }
+func (c *Ctx) Observe(s string) {
+	c.mu.Lock()
+	c.obs = append(c.obs, s)
+	c.mu.Unlock()
+}
 
 // Count bumps a per-run counter (reported in the evidence).
-func (c *Ctx) Count(name string, d int) { c.cnt[name] += d }
+func (c *Ctx) Count(name string, d int) {
+	c.mu.Lock()
+	c.cnt[name] += d
+	c.mu.Unlock()
+}
 
 // Phase is one exploration pass over a scenario.
 type Phase struct {
@@ -118,6 +133,8 @@ var (
 	fDeadline = flag.Int64("deadline", 0, "unix seconds")
 	fReplay   = flag.String("replay", "", "replay file")
 	fTrace    = flag.Bool("trace", false, "with -replay: print the step log")
+	fFree     = flag.Int("free", 0, "free-running mode (no scheduler): run every quick scenario this many times; used by the supplementary -race pass")
+	fFreeOut  = flag.String("free-out", "", "free-running mode: summary file")
 )
 
 func phases(s Scenario, tier string) []Phase {
@@ -136,6 +153,10 @@ func Main(prop, level string, scenarios []Scenario, describe func(r *mc.Run)) {
 	}
 	if *fReplay != "" {
 		replay(prop, scenarios)
+		return
+	}
+	if *fFree > 0 {
+		freeRun(prop, scenarios)
 		return
 	}
 	parent(prop, level, scenarios, describe)
@@ -391,6 +412,7 @@ func parent(prop, level string, scenarios []Scenario, describe func(r *mc.Run)) 
 	if describe != nil {
 		describe(r)
 	}
+	freeOutcomes := supplementary(r, prop)
 	self, _ := os.Executable()
 	type agg struct {
 		execs    int
@@ -537,6 +559,15 @@ func parent(prop, level string, scenarios []Scenario, describe func(r *mc.Run)) 
 				for k, v := range counters {
 					r.Count(s.Name+":"+k, int64(v))
 				}
+				if fo := freeOutcomes[s.Name]; fo != nil && pi == 0 {
+					for k := range fo {
+						if _, ok := total.outcomes[k]; !ok {
+							r.Count("free_running_outcomes_not_enumerated_within_the_bound", 1)
+						} else {
+							r.Count("free_running_outcomes_also_enumerated", 1)
+						}
+					}
+				}
 				if !complete {
 					r.Cap(fmt.Sprintf("scenario %s phase %d (deviation bound %d %s) not completed: %d schedules explored", s.Name, pi, ph.Bound, ph.Filter, total.execs))
 				}
@@ -582,4 +613,107 @@ func trunc(s string, n int) string {
 		return s[:n] + "…"
 	}
 	return s
+}
+
+// FreeSummary is what the free-running pass leaves for the explorer parent.
+type FreeSummary struct {
+	Iterations int                       `json:"iterations_per_scenario"`
+	Scenarios  int                       `json:"scenarios"`
+	Outcomes   map[string]map[string]int `json:"outcomes"`
+	Failures   []string                  `json:"failures"`
+}
+
+// freeRun executes the scenario bodies WITHOUT the scheduler (vrt primitives pass through to the
+// real ones), GOMAXPROCS unrestricted: the same driver bodies, free-running. Built with -race this
+// is the supplementary data-race pass; its outcomes are also compared with the explorer's.
+func freeRun(prop string, scenarios []Scenario) {
+	sum := FreeSummary{Iterations: *fFree, Outcomes: map[string]map[string]int{}}
+	base := fmt.Sprintf("/dev/shm/verif-free-%d", os.Getpid())
+	defer os.RemoveAll(base)
+	for _, s := range scenarios {
+		if len(s.Quick) == 0 {
+			continue
+		}
+		sum.Scenarios++
+		sum.Outcomes[s.Name] = map[string]int{}
+		for i := 0; i < *fFree; i++ {
+			c := &Ctx{cnt: map[string]int{}}
+			c.Dir = fmt.Sprintf("%s/%d", base, i)
+			os.MkdirAll(c.Dir, 0o755)
+			func() {
+				defer func() {
+					if e := recover(); e != nil {
+						c.Fail("panic", "panic: %v", e)
+					}
+				}()
+				s.Body(c)
+			}()
+			os.RemoveAll(c.Dir)
+			sum.Outcomes[s.Name][strings.Join(c.obs, "|")]++
+			if c.fail != "" {
+				sum.Failures = append(sum.Failures, fmt.Sprintf("%s: %s: %s", s.Name, c.class, c.fail))
+			}
+		}
+	}
+	b, _ := json.MarshalIndent(sum, "", " ")
+	if *fFreeOut != "" {
+		os.WriteFile(*fFreeOut, b, 0o644)
+	}
+	fmt.Printf("free-running pass: %d scenarios × %d iterations, %d contract failures\n", sum.Scenarios, *fFree, len(sum.Failures))
+}
+
+// supplementary folds the result of the free-running -race pass (a SAMPLING technique, run by
+// bin/check-sched before the exploration, declared as such) into the evidence. A reported race is
+// a violation of the property's data-race clause; it is not what decides the other clauses.
+func supplementary(r *mc.Run, prop string) map[string]map[string]int {
+	sf := os.Getenv("VERIF_FREE_SUMMARY")
+	if sf == "" {
+		return nil
+	}
+	b, err := os.ReadFile(sf)
+	if err != nil {
+		r.Note("supplementary_race_pass", "not run: "+err.Error())
+		return nil
+	}
+	var sum FreeSummary
+	json.Unmarshal(b, &sum)
+	races := 0
+	if lp := os.Getenv("VERIF_RACE_LOG"); lp != "" {
+		ms, _ := filepath.Glob(lp + "*")
+		for _, m := range ms {
+			lb, _ := os.ReadFile(m)
+			n := strings.Count(string(lb), "WARNING: DATA RACE")
+			if n > 0 {
+				races += n
+				site := raceSite(string(lb))
+				r.Violation("data-race:"+site, fmt.Sprintf("the free-running -race pass over the same driver bodies reported %d data race(s); first: %s", n, firstLines(string(lb), 30)), map[string]any{"race_log": string(lb)})
+			}
+		}
+	}
+	for _, f := range sum.Failures {
+		r.Violation("free-running:"+strings.SplitN(strings.SplitN(f, ": ", 3)[1], " ", 2)[0], "free-running pass: "+f, map[string]any{"failure": f})
+	}
+	r.Note("supplementary_race_pass", map[string]any{"technique": "free-running execution of the same driver bodies, un-instrumented, built with -race (sampling; NOT the deciding method)", "scenarios": sum.Scenarios, "iterations_per_scenario": sum.Iterations, "data_races_reported": races, "contract_failures": len(sum.Failures)})
+	return sum.Outcomes
+}
+
+func raceSite(log string) string {
+	for _, l := range strings.Split(log, "\n") {
+		l = strings.TrimSpace(l)
+		if strings.HasPrefix(l, "/repo/") {
+			if i := strings.Index(l, " "); i > 0 {
+				l = l[:i]
+			}
+			return strings.TrimPrefix(l, "/repo/")
+		}
+	}
+	return "?"
+}
+
+func firstLines(s string, n int) string {
+	ls := strings.Split(s, "\n")
+	if len(ls) > n {
+		ls = ls[:n]
+	}
+	return strings.Join(ls, " | ")
 }
